@@ -220,6 +220,10 @@ pub fn run_c08(ctx: &Ctx) -> (&'static str, Map<String, Value>) {
         crate::props_life::cfg(ctx, Hid::K32, vec![p(4, 2), p(4, 2)], 0, Some(6), 0, vec![]),
         crate::props_life::cfg(ctx, Hid::K24, vec![p(4, 2), p(4, 2)], 0, Some(6), 0, vec![]),
         crate::props_life::cfg(ctx, Hid::K16, vec![p(4, 2), p(4, 2)], 0, Some(6), 0, vec![]),
+        // parent leaf indices that need more than one byte (child derivation below a 1024-leaf tree)
+        crate::props_life::cfg(ctx, Hid::S16, vec![p(4, 10), p(4, 2)], 1021, Some(5), 0, vec![]),
+        crate::props_life::cfg(ctx, Hid::S16, vec![p(4, 10), p(4, 2)], 4093, None, 0, vec![]),
+        crate::props_life::cfg(ctx, Hid::S24, vec![p(8, 2), p(4, 10), p(4, 2)], 3 * 4096 + 2045, Some(5), 0, vec![]),
     ];
     let (agg, labels) = crate::props_life::run_lattice(ctx, cfgs);
     ctx.assume("the hash-sigs specific constants (D_TOPSEED block layout, child seed j=0xfffe/0xffff, fixed 55-byte PRNG block zero-padded for n<32) are reconstructed from the property text and pinned; LM-OTS/LMS derivation itself is anchored by reproducing the RFC 8554 Appendix F test case 2 public keys from its private SEED/I values");
